@@ -77,50 +77,35 @@ def genIncDense (mode : String) (inv : NP.M → Option Nat → NP.M) (X : NP.M) 
         let v1to0 := ((v10 + (1)) * k)
         let v2from0 := (v20 * k)
         let v2to0 := ((v20 + (1)) * k)
-        if ((mode == "concatenation")) then
-          let edgedata0 := (NP.cols X ((NP.Idx.range v1from0 v1to0) + (NP.Idx.range v2from0 v2to0)))
-          let m0 := (NP.getItem meanvector ((NP.Idx.range v1from0 v1to0) + (NP.Idx.range v2from0 v2to0)))
-          match ((genIncCov edgedata0 m0 (NP.getItem covariances0 e0) n bias).map fun p => NP.setItem covariances0 e0 p.2) with
-          | none => (some (none), covariances0, precision1)
-          | some covariances1 =>
-            let covmat0 := (inv (NP.getItem covariances1 e0) nc)
-            if ((mode == "concatenation")) then
-              let precision0 := (NP.addSlice precision1 v1from0 v1to0 v1from0 v1to0 (NP.sl covmat0 0 k 0 k))
-              let precision1 := (NP.addSlice precision0 v2from0 v2to0 v2from0 v2to0 (NP.sl covmat0 k (NP.shape0 covmat0) k (NP.shape1 covmat0)))
-              let precision0 := (NP.setSlice precision1 v1from0 v1to0 v2from0 v2to0 (NP.sl covmat0 0 k k (NP.shape1 covmat0)))
-              let precision1 := (NP.setSlice precision0 v2from0 v2to0 v1from0 v1to0 (NP.sl covmat0 k (NP.shape0 covmat0) 0 k))
+        let p0 := (if ((mode == "concatenation")) then
+            let edgedata0 := (NP.cols X ((NP.Idx.range v1from0 v1to0) + (NP.Idx.range v2from0 v2to0)))
+            let m0 := (NP.getItem meanvector ((NP.Idx.range v1from0 v1to0) + (NP.Idx.range v2from0 v2to0)))
+            (edgedata0, m0)
+          else
+            let edgedata0 := ((NP.sl X 0 (NP.shape0 X) v1from0 v1to0) - (NP.sl X 0 (NP.shape0 X) v2from0 v2to0))
+            let m0 := ((NP.slV meanvector v1from0 v1to0) - (NP.slV meanvector v2from0 v2to0))
+            (edgedata0, m0))
+        let edgedata0 := p0.1
+        let m0 := p0.2
+        match ((genIncCov edgedata0 m0 (NP.getItem covariances0 e0) n bias).map fun p => NP.setItem covariances0 e0 p.2) with
+        | none => (some (none), covariances0, precision1)
+        | some covariances1 =>
+          let covmat0 := (inv (NP.getItem covariances1 e0) nc)
+          if ((mode == "concatenation")) then
+            let precision0 := (NP.addSlice precision1 v1from0 v1to0 v1from0 v1to0 (NP.sl covmat0 0 k 0 k))
+            let precision1 := (NP.addSlice precision0 v2from0 v2to0 v2from0 v2to0 (NP.sl covmat0 k (NP.shape0 covmat0) k (NP.shape1 covmat0)))
+            let precision0 := (NP.setSlice precision1 v1from0 v1to0 v2from0 v2to0 (NP.sl covmat0 0 k k (NP.shape1 covmat0)))
+            let precision1 := (NP.setSlice precision0 v2from0 v2to0 v1from0 v1to0 (NP.sl covmat0 k (NP.shape0 covmat0) 0 k))
+            (none, covariances1, precision1)
+          else
+            if ((mode == "subtraction")) then
+              let precision0 := (NP.setSlice precision1 v1from0 v1to0 v2from0 v2to0 (-covmat0))
+              let precision1 := (NP.setSlice precision0 v2from0 v2to0 v1from0 v1to0 (-covmat0))
+              let precision0 := (NP.addSlice precision1 v1from0 v1to0 v1from0 v1to0 covmat0)
+              let precision1 := (NP.addSlice precision0 v2from0 v2to0 v2from0 v2to0 covmat0)
               (none, covariances1, precision1)
             else
-              if ((mode == "subtraction")) then
-                let precision0 := (NP.setSlice precision1 v1from0 v1to0 v2from0 v2to0 (-covmat0))
-                let precision1 := (NP.setSlice precision0 v2from0 v2to0 v1from0 v1to0 (-covmat0))
-                let precision0 := (NP.addSlice precision1 v1from0 v1to0 v1from0 v1to0 covmat0)
-                let precision1 := (NP.addSlice precision0 v2from0 v2to0 v2from0 v2to0 covmat0)
-                (none, covariances1, precision1)
-              else
-                (none, covariances1, precision1)
-        else
-          let edgedata0 := ((NP.sl X 0 (NP.shape0 X) v1from0 v1to0) - (NP.sl X 0 (NP.shape0 X) v2from0 v2to0))
-          let m0 := ((NP.slV meanvector v1from0 v1to0) - (NP.slV meanvector v2from0 v2to0))
-          match ((genIncCov edgedata0 m0 (NP.getItem covariances0 e0) n bias).map fun p => NP.setItem covariances0 e0 p.2) with
-          | none => (some (none), covariances0, precision1)
-          | some covariances1 =>
-            let covmat0 := (inv (NP.getItem covariances1 e0) nc)
-            if ((mode == "concatenation")) then
-              let precision0 := (NP.addSlice precision1 v1from0 v1to0 v1from0 v1to0 (NP.sl covmat0 0 k 0 k))
-              let precision1 := (NP.addSlice precision0 v2from0 v2to0 v2from0 v2to0 (NP.sl covmat0 k (NP.shape0 covmat0) k (NP.shape1 covmat0)))
-              let precision0 := (NP.setSlice precision1 v1from0 v1to0 v2from0 v2to0 (NP.sl covmat0 0 k k (NP.shape1 covmat0)))
-              let precision1 := (NP.setSlice precision0 v2from0 v2to0 v1from0 v1to0 (NP.sl covmat0 k (NP.shape0 covmat0) 0 k))
-              (none, covariances1, precision1)
-            else
-              if ((mode == "subtraction")) then
-                let precision0 := (NP.setSlice precision1 v1from0 v1to0 v2from0 v2to0 (-covmat0))
-                let precision1 := (NP.setSlice precision0 v2from0 v2to0 v1from0 v1to0 (-covmat0))
-                let precision0 := (NP.addSlice precision1 v1from0 v1to0 v1from0 v1to0 covmat0)
-                let precision1 := (NP.addSlice precision0 v2from0 v2to0 v2from0 v2to0 covmat0)
-                (none, covariances1, precision1)
-              else
-                (none, covariances1, precision1))
+              (none, covariances1, precision1))
     let covariances0 := r0.2.1
     let precision1 := r0.2.2
     match r0.1 with
@@ -204,92 +189,56 @@ def genIncSparse (mode : String) (inv : NP.M → Option Nat → NP.M) (X : NP.M)
         let v1to0 := ((v10 + (1)) * k)
         let v2from0 := (v20 * k)
         let v2to0 := ((v20 + (1)) * k)
-        if ((mode == "concatenation")) then
-          let edgedata0 := (NP.cols X ((NP.Idx.range v1from0 v1to0) + (NP.Idx.range v2from0 v2to0)))
-          let m0 := (NP.getItem meanvector ((NP.Idx.range v1from0 v1to0) + (NP.Idx.range v2from0 v2to0)))
-          match ((genIncCov edgedata0 m0 (NP.getItem covariances0 e0) n bias).map fun p => NP.setItem covariances0 e0 p.2) with
-          | none => (some (none), covariances0, count1, allblocks1, rows1, columns1)
-          | some covariances1 =>
-            let covmat0 := (inv (NP.getItem covariances1 e0) nc)
-            if ((mode == "concatenation")) then
-              let count0 := (count1 + (1))
-              let allblocks0 := (NP.setItem allblocks1 count0 (NP.sl covmat0 0 k 0 k))
-              let rows0 := (NP.setItem rows1 count0 v10)
-              let columns0 := (NP.setItem columns1 count0 v10)
-              let count1 := (count0 + (1))
-              let allblocks1 := (NP.setItem allblocks0 count1 (NP.sl covmat0 k (NP.shape0 covmat0) k (NP.shape1 covmat0)))
-              let rows1 := (NP.setItem rows0 count1 v20)
-              let columns1 := (NP.setItem columns0 count1 v20)
-              let count0 := (count1 + (1))
-              let allblocks0 := (NP.setItem allblocks1 count0 (NP.sl covmat0 0 k k (NP.shape1 covmat0)))
-              let rows0 := (NP.setItem rows1 count0 v10)
-              let columns0 := (NP.setItem columns1 count0 v20)
-              let count1 := (count0 + (1))
-              let allblocks1 := (NP.setItem allblocks0 count1 (NP.sl covmat0 k (NP.shape0 covmat0) 0 k))
-              let rows1 := (NP.setItem rows0 count1 v20)
-              let columns1 := (NP.setItem columns0 count1 v10)
-              (none, covariances1, count1, allblocks1, rows1, columns1)
-            else
-              let count0 := (count1 + (1))
-              let allblocks0 := (NP.setItem allblocks1 count0 covmat0)
-              let rows0 := (NP.setItem rows1 count0 v10)
-              let columns0 := (NP.setItem columns1 count0 v10)
-              let count1 := (count0 + (1))
-              let allblocks1 := (NP.setItem allblocks0 count1 covmat0)
-              let rows1 := (NP.setItem rows0 count1 v20)
-              let columns1 := (NP.setItem columns0 count1 v20)
-              let count0 := (count1 + (1))
-              let allblocks0 := (NP.setItem allblocks1 count0 (-covmat0))
-              let rows0 := (NP.setItem rows1 count0 v10)
-              let columns0 := (NP.setItem columns1 count0 v20)
-              let count1 := (count0 + (1))
-              let allblocks1 := (NP.setItem allblocks0 count1 (-covmat0))
-              let rows1 := (NP.setItem rows0 count1 v20)
-              let columns1 := (NP.setItem columns0 count1 v10)
-              (none, covariances1, count1, allblocks1, rows1, columns1)
-        else
-          let edgedata0 := ((NP.sl X 0 (NP.shape0 X) v1from0 v1to0) - (NP.sl X 0 (NP.shape0 X) v2from0 v2to0))
-          let m0 := ((NP.slV meanvector v1from0 v1to0) - (NP.slV meanvector v2from0 v2to0))
-          match ((genIncCov edgedata0 m0 (NP.getItem covariances0 e0) n bias).map fun p => NP.setItem covariances0 e0 p.2) with
-          | none => (some (none), covariances0, count1, allblocks1, rows1, columns1)
-          | some covariances1 =>
-            let covmat0 := (inv (NP.getItem covariances1 e0) nc)
-            if ((mode == "concatenation")) then
-              let count0 := (count1 + (1))
-              let allblocks0 := (NP.setItem allblocks1 count0 (NP.sl covmat0 0 k 0 k))
-              let rows0 := (NP.setItem rows1 count0 v10)
-              let columns0 := (NP.setItem columns1 count0 v10)
-              let count1 := (count0 + (1))
-              let allblocks1 := (NP.setItem allblocks0 count1 (NP.sl covmat0 k (NP.shape0 covmat0) k (NP.shape1 covmat0)))
-              let rows1 := (NP.setItem rows0 count1 v20)
-              let columns1 := (NP.setItem columns0 count1 v20)
-              let count0 := (count1 + (1))
-              let allblocks0 := (NP.setItem allblocks1 count0 (NP.sl covmat0 0 k k (NP.shape1 covmat0)))
-              let rows0 := (NP.setItem rows1 count0 v10)
-              let columns0 := (NP.setItem columns1 count0 v20)
-              let count1 := (count0 + (1))
-              let allblocks1 := (NP.setItem allblocks0 count1 (NP.sl covmat0 k (NP.shape0 covmat0) 0 k))
-              let rows1 := (NP.setItem rows0 count1 v20)
-              let columns1 := (NP.setItem columns0 count1 v10)
-              (none, covariances1, count1, allblocks1, rows1, columns1)
-            else
-              let count0 := (count1 + (1))
-              let allblocks0 := (NP.setItem allblocks1 count0 covmat0)
-              let rows0 := (NP.setItem rows1 count0 v10)
-              let columns0 := (NP.setItem columns1 count0 v10)
-              let count1 := (count0 + (1))
-              let allblocks1 := (NP.setItem allblocks0 count1 covmat0)
-              let rows1 := (NP.setItem rows0 count1 v20)
-              let columns1 := (NP.setItem columns0 count1 v20)
-              let count0 := (count1 + (1))
-              let allblocks0 := (NP.setItem allblocks1 count0 (-covmat0))
-              let rows0 := (NP.setItem rows1 count0 v10)
-              let columns0 := (NP.setItem columns1 count0 v20)
-              let count1 := (count0 + (1))
-              let allblocks1 := (NP.setItem allblocks0 count1 (-covmat0))
-              let rows1 := (NP.setItem rows0 count1 v20)
-              let columns1 := (NP.setItem columns0 count1 v10)
-              (none, covariances1, count1, allblocks1, rows1, columns1))
+        let p0 := (if ((mode == "concatenation")) then
+            let edgedata0 := (NP.cols X ((NP.Idx.range v1from0 v1to0) + (NP.Idx.range v2from0 v2to0)))
+            let m0 := (NP.getItem meanvector ((NP.Idx.range v1from0 v1to0) + (NP.Idx.range v2from0 v2to0)))
+            (edgedata0, m0)
+          else
+            let edgedata0 := ((NP.sl X 0 (NP.shape0 X) v1from0 v1to0) - (NP.sl X 0 (NP.shape0 X) v2from0 v2to0))
+            let m0 := ((NP.slV meanvector v1from0 v1to0) - (NP.slV meanvector v2from0 v2to0))
+            (edgedata0, m0))
+        let edgedata0 := p0.1
+        let m0 := p0.2
+        match ((genIncCov edgedata0 m0 (NP.getItem covariances0 e0) n bias).map fun p => NP.setItem covariances0 e0 p.2) with
+        | none => (some (none), covariances0, count1, allblocks1, rows1, columns1)
+        | some covariances1 =>
+          let covmat0 := (inv (NP.getItem covariances1 e0) nc)
+          if ((mode == "concatenation")) then
+            let count0 := (count1 + (1))
+            let allblocks0 := (NP.setItem allblocks1 count0 (NP.sl covmat0 0 k 0 k))
+            let rows0 := (NP.setItem rows1 count0 v10)
+            let columns0 := (NP.setItem columns1 count0 v10)
+            let count1 := (count0 + (1))
+            let allblocks1 := (NP.setItem allblocks0 count1 (NP.sl covmat0 k (NP.shape0 covmat0) k (NP.shape1 covmat0)))
+            let rows1 := (NP.setItem rows0 count1 v20)
+            let columns1 := (NP.setItem columns0 count1 v20)
+            let count0 := (count1 + (1))
+            let allblocks0 := (NP.setItem allblocks1 count0 (NP.sl covmat0 0 k k (NP.shape1 covmat0)))
+            let rows0 := (NP.setItem rows1 count0 v10)
+            let columns0 := (NP.setItem columns1 count0 v20)
+            let count1 := (count0 + (1))
+            let allblocks1 := (NP.setItem allblocks0 count1 (NP.sl covmat0 k (NP.shape0 covmat0) 0 k))
+            let rows1 := (NP.setItem rows0 count1 v20)
+            let columns1 := (NP.setItem columns0 count1 v10)
+            (none, covariances1, count1, allblocks1, rows1, columns1)
+          else
+            let count0 := (count1 + (1))
+            let allblocks0 := (NP.setItem allblocks1 count0 covmat0)
+            let rows0 := (NP.setItem rows1 count0 v10)
+            let columns0 := (NP.setItem columns1 count0 v10)
+            let count1 := (count0 + (1))
+            let allblocks1 := (NP.setItem allblocks0 count1 covmat0)
+            let rows1 := (NP.setItem rows0 count1 v20)
+            let columns1 := (NP.setItem columns0 count1 v20)
+            let count0 := (count1 + (1))
+            let allblocks0 := (NP.setItem allblocks1 count0 (-covmat0))
+            let rows0 := (NP.setItem rows1 count0 v10)
+            let columns0 := (NP.setItem columns1 count0 v20)
+            let count1 := (count0 + (1))
+            let allblocks1 := (NP.setItem allblocks0 count1 (-covmat0))
+            let rows1 := (NP.setItem rows0 count1 v20)
+            let columns1 := (NP.setItem columns0 count1 v10)
+            (none, covariances1, count1, allblocks1, rows1, columns1))
     let covariances0 := r0.2.1
     let count1 := r0.2.2.1
     let allblocks1 := r0.2.2.2.1
@@ -321,67 +270,45 @@ def genIncSparse (mode : String) (inv : NP.M → Option Nat → NP.M) (X : NP.M)
       some (((NP.bsr allblocks0 columns0 indptr1 nfeatures nfeatures), covariances0))
 
 def genDataToMatrix (data : NP.Samples) (nsamples : Option Nat) : NP.Samples × Nat :=
-  if (nsamples).isNone then
-    let nsamples0 := (NP.len data)
-    if (!(NP.isArray data)) then
+  let p0 := (if (nsamples).isNone then
+      let nsamples0 := (NP.len data)
+      nsamples0
+    else
+      (NP.the nsamples))
+  let nsamples0 := p0
+  let p1 := (if (!(NP.isArray data)) then
       let data0 := (NP.Samples.arr (NP.sl (NP.arrayOf data) 0 nsamples0 0 (NP.shape1 (NP.arrayOf data))))
-      (data0, nsamples0)
+      data0
     else
-      (data, nsamples0)
-  else
-    if (!(NP.isArray data)) then
-      let data0 := (NP.Samples.arr (NP.sl (NP.arrayOf data) 0 (NP.the nsamples) 0 (NP.shape1 (NP.arrayOf data))))
-      (data0, (NP.the nsamples))
-    else
-      (data, (NP.the nsamples))
+      data)
+  let data0 := p1
+  (data0, nsamples0)
 
 def genIncrementInner (inv : NP.M → Option Nat → NP.M) (graph : NP.Graph) (sparse : Bool) (mode : String) (nf k : Nat) (nc : Option Nat) (bias : Nat) (st : NP.GState) (data : NP.M) : Option NP.GState :=
-  if (((NP.Graph.nEdges graph) == (0))) then
-    if sparse then
-      let constructor0 := genIncSparseDiag
-      match (constructor0 inv data st.mean st.covs st.n graph nf k nc bias) with
-      | none => none
-      | some p0 =>
-        let p1 := p0
-        let selfprecision0 := p1.1
-        let selfcovs0 := p1.2
-        let selfmean0 := (genIncMean data st.mean st.n)
-        let selfn0 := (st.n + (NP.shape0 data))
-        some (NP.GState.mk selfprecision0 selfcovs0 selfmean0 selfn0)
+  let p0 := (if (((NP.Graph.nEdges graph) == (0))) then
+      if sparse then
+        let constructor0 := genIncSparseDiag
+        constructor0
+      else
+        let constructor0 := genIncDenseDiag
+        constructor0
     else
-      let constructor0 := genIncDenseDiag
-      match (constructor0 inv data st.mean st.covs st.n graph nf k nc bias) with
-      | none => none
-      | some p0 =>
-        let p1 := p0
-        let selfprecision0 := p1.1
-        let selfcovs0 := p1.2
-        let selfmean0 := (genIncMean data st.mean st.n)
-        let selfn0 := (st.n + (NP.shape0 data))
-        some (NP.GState.mk selfprecision0 selfcovs0 selfmean0 selfn0)
-  else
-    if sparse then
-      let constructor0 := (genIncSparse mode)
-      match (constructor0 inv data st.mean st.covs st.n graph nf k nc bias) with
-      | none => none
-      | some p0 =>
-        let p1 := p0
-        let selfprecision0 := p1.1
-        let selfcovs0 := p1.2
-        let selfmean0 := (genIncMean data st.mean st.n)
-        let selfn0 := (st.n + (NP.shape0 data))
-        some (NP.GState.mk selfprecision0 selfcovs0 selfmean0 selfn0)
-    else
-      let constructor0 := (genIncDense mode)
-      match (constructor0 inv data st.mean st.covs st.n graph nf k nc bias) with
-      | none => none
-      | some p0 =>
-        let p1 := p0
-        let selfprecision0 := p1.1
-        let selfcovs0 := p1.2
-        let selfmean0 := (genIncMean data st.mean st.n)
-        let selfn0 := (st.n + (NP.shape0 data))
-        some (NP.GState.mk selfprecision0 selfcovs0 selfmean0 selfn0)
+      if sparse then
+        let constructor0 := (genIncSparse mode)
+        constructor0
+      else
+        let constructor0 := (genIncDense mode)
+        constructor0)
+  let constructor0 := p0
+  match (constructor0 inv data st.mean st.covs st.n graph nf k nc bias) with
+  | none => none
+  | some p1 =>
+    let p2 := p1
+    let selfprecision0 := p2.1
+    let selfcovs0 := p2.2
+    let selfmean0 := (genIncMean data st.mean st.n)
+    let selfn0 := (st.n + (NP.shape0 data))
+    some (NP.GState.mk selfprecision0 selfcovs0 selfmean0 selfn0)
 
 def genIncrement (inv : NP.M → Option Nat → NP.M) (graph : NP.Graph) (sparse : Bool) (mode : String) (nf k : Nat) (nc : Option Nat) (bias : Nat) (st : NP.GState) (incremental : Bool) (samples : NP.Samples) (nsamples : Option Nat) : Option NP.GState :=
   if (!incremental) then
@@ -406,131 +333,64 @@ def genIncrementObj (inv : NP.M → Option Nat → NP.M) (graph : NP.Graph) (spa
       some self0
 
 def genIpca (lib : NP.Lib) (B Ua : NP.M) (la : NP.V) (na : Rat) (ma : Option NP.V) (f eps : Rat) (centre : Option Bool) : NP.M × NP.V × NP.V :=
-  let precision0 := lib.precision
+  let precision0 := (NP.maxList ([(lib.eps lib.float64)] + ((if (lib.inexact (NP.dtypeIn lib B)) then [(lib.eps (NP.dtypeIn lib B))] else []) ++ (if (lib.inexact (NP.dtypeIn lib Ua)) then [(lib.eps (NP.dtypeIn lib Ua))] else []) ++ (if (lib.inexact (NP.dtypeIn lib la)) then [(lib.eps (NP.dtypeIn lib la))] else []))))
   let sa0 := (NP.sqrt lib.sqrt ((na - (1)) * la))
   let p0 := (NP.shape B)
   let nb0 := p0.1
   let d0 := p0.2
   let na0 := (na * f)
   let n0 := (na0 + nb0)
-  if (centre).isNone then
-    let centre0 := ((ma).isSome && (!(NP.allZero (NP.the ma))))
-    if centre0 then
-      if (ma).isNone then
-        let ma0 := (NP.zerosV d0)
-        let mb0 := (NP.mean0 B)
-        let m0 := (((na0 / n0) * ma0) + ((nb0 / n0) * mb0))
-        let B0 := (B - mb0)
-        let B1 := (NP.vstack B0 ((NP.sqrt lib.sqrt ((na0 * nb0) / n0)) * (mb0 - ma0)))
-        let PB0 := (B1 - (NP.dot (NP.dot B1 (NP.T Ua)) Ua))
-        let Btilde0 := (NP.T (lib.qrQ (NP.T PB0)))
-        let Sa0 := (NP.diag sa0)
-        let R0 := (NP.hstack (NP.vstack (f * Sa0) (NP.dot B1 (NP.T Ua))) (NP.vstack (NP.zeros (NP.shape0 Sa0) (NP.shape0 Btilde0)) (NP.dot PB0 (NP.T Btilde0))))
-        let p1 := (lib.svd R0)
-        let Utilde0 := p1.1
-        let stilde0 := p1.2.1
-        let Vttilde0 := p1.2.2
-        let l0 := ((NP.sq stilde0) / (n0 - (1)))
-        let l1 := (NP.filterGt l0 (max eps (((NP.maxShape R0) * precision0) * (NP.vmax l0))))
-        let U0 := (NP.sl (NP.dot Vttilde0 (NP.vstack Ua Btilde0)) 0 (NP.len l1) 0 (NP.shape1 (NP.dot Vttilde0 (NP.vstack Ua Btilde0))))
-        (U0, l1, m0)
-      else
-        let mb0 := (NP.mean0 B)
-        let m0 := (((na0 / n0) * (NP.the ma)) + ((nb0 / n0) * mb0))
-        let B0 := (B - mb0)
-        let B1 := (NP.vstack B0 ((NP.sqrt lib.sqrt ((na0 * nb0) / n0)) * (mb0 - (NP.the ma))))
-        let PB0 := (B1 - (NP.dot (NP.dot B1 (NP.T Ua)) Ua))
-        let Btilde0 := (NP.T (lib.qrQ (NP.T PB0)))
-        let Sa0 := (NP.diag sa0)
-        let R0 := (NP.hstack (NP.vstack (f * Sa0) (NP.dot B1 (NP.T Ua))) (NP.vstack (NP.zeros (NP.shape0 Sa0) (NP.shape0 Btilde0)) (NP.dot PB0 (NP.T Btilde0))))
-        let p1 := (lib.svd R0)
-        let Utilde0 := p1.1
-        let stilde0 := p1.2.1
-        let Vttilde0 := p1.2.2
-        let l0 := ((NP.sq stilde0) / (n0 - (1)))
-        let l1 := (NP.filterGt l0 (max eps (((NP.maxShape R0) * precision0) * (NP.vmax l0))))
-        let U0 := (NP.sl (NP.dot Vttilde0 (NP.vstack Ua Btilde0)) 0 (NP.len l1) 0 (NP.shape1 (NP.dot Vttilde0 (NP.vstack Ua Btilde0))))
-        (U0, l1, m0)
+  let p1 := (if (centre).isNone then
+      let centre0 := ((ma).isSome && (!(NP.allZero (NP.the ma))))
+      centre0
+    else
+      (NP.truthy centre))
+  let centre0 := p1
+  let p2 := (if centre0 then
+      let p2 := (if (ma).isNone then
+          let ma0 := (NP.zerosV d0)
+          ma0
+        else
+          (NP.the ma))
+      let ma0 := p2
+      let mb0 := (NP.mean0 B)
+      let m0 := (((na0 / n0) * ma0) + ((nb0 / n0) * mb0))
+      let B0 := (B - mb0)
+      let B1 := (NP.vstack B0 ((NP.sqrt lib.sqrt ((na0 * nb0) / n0)) * (mb0 - ma0)))
+      (ma0, m0, B1)
     else
       let m0 := (NP.zerosV d0)
-      let PB0 := (B - (NP.dot (NP.dot B (NP.T Ua)) Ua))
-      let Btilde0 := (NP.T (lib.qrQ (NP.T PB0)))
-      let Sa0 := (NP.diag sa0)
-      let R0 := (NP.hstack (NP.vstack (f * Sa0) (NP.dot B (NP.T Ua))) (NP.vstack (NP.zeros (NP.shape0 Sa0) (NP.shape0 Btilde0)) (NP.dot PB0 (NP.T Btilde0))))
-      let p1 := (lib.svd R0)
-      let Utilde0 := p1.1
-      let stilde0 := p1.2.1
-      let Vttilde0 := p1.2.2
-      let l0 := ((NP.sq stilde0) / (n0 - (1)))
-      let l1 := (NP.filterGt l0 (max eps (((NP.maxShape R0) * precision0) * (NP.vmax l0))))
-      let U0 := (NP.sl (NP.dot Vttilde0 (NP.vstack Ua Btilde0)) 0 (NP.len l1) 0 (NP.shape1 (NP.dot Vttilde0 (NP.vstack Ua Btilde0))))
-      (U0, l1, m0)
-  else
-    if (NP.truthy centre) then
-      if (ma).isNone then
-        let ma0 := (NP.zerosV d0)
-        let mb0 := (NP.mean0 B)
-        let m0 := (((na0 / n0) * ma0) + ((nb0 / n0) * mb0))
-        let B0 := (B - mb0)
-        let B1 := (NP.vstack B0 ((NP.sqrt lib.sqrt ((na0 * nb0) / n0)) * (mb0 - ma0)))
-        let PB0 := (B1 - (NP.dot (NP.dot B1 (NP.T Ua)) Ua))
-        let Btilde0 := (NP.T (lib.qrQ (NP.T PB0)))
-        let Sa0 := (NP.diag sa0)
-        let R0 := (NP.hstack (NP.vstack (f * Sa0) (NP.dot B1 (NP.T Ua))) (NP.vstack (NP.zeros (NP.shape0 Sa0) (NP.shape0 Btilde0)) (NP.dot PB0 (NP.T Btilde0))))
-        let p1 := (lib.svd R0)
-        let Utilde0 := p1.1
-        let stilde0 := p1.2.1
-        let Vttilde0 := p1.2.2
-        let l0 := ((NP.sq stilde0) / (n0 - (1)))
-        let l1 := (NP.filterGt l0 (max eps (((NP.maxShape R0) * precision0) * (NP.vmax l0))))
-        let U0 := (NP.sl (NP.dot Vttilde0 (NP.vstack Ua Btilde0)) 0 (NP.len l1) 0 (NP.shape1 (NP.dot Vttilde0 (NP.vstack Ua Btilde0))))
-        (U0, l1, m0)
-      else
-        let mb0 := (NP.mean0 B)
-        let m0 := (((na0 / n0) * (NP.the ma)) + ((nb0 / n0) * mb0))
-        let B0 := (B - mb0)
-        let B1 := (NP.vstack B0 ((NP.sqrt lib.sqrt ((na0 * nb0) / n0)) * (mb0 - (NP.the ma))))
-        let PB0 := (B1 - (NP.dot (NP.dot B1 (NP.T Ua)) Ua))
-        let Btilde0 := (NP.T (lib.qrQ (NP.T PB0)))
-        let Sa0 := (NP.diag sa0)
-        let R0 := (NP.hstack (NP.vstack (f * Sa0) (NP.dot B1 (NP.T Ua))) (NP.vstack (NP.zeros (NP.shape0 Sa0) (NP.shape0 Btilde0)) (NP.dot PB0 (NP.T Btilde0))))
-        let p1 := (lib.svd R0)
-        let Utilde0 := p1.1
-        let stilde0 := p1.2.1
-        let Vttilde0 := p1.2.2
-        let l0 := ((NP.sq stilde0) / (n0 - (1)))
-        let l1 := (NP.filterGt l0 (max eps (((NP.maxShape R0) * precision0) * (NP.vmax l0))))
-        let U0 := (NP.sl (NP.dot Vttilde0 (NP.vstack Ua Btilde0)) 0 (NP.len l1) 0 (NP.shape1 (NP.dot Vttilde0 (NP.vstack Ua Btilde0))))
-        (U0, l1, m0)
-    else
-      let m0 := (NP.zerosV d0)
-      let PB0 := (B - (NP.dot (NP.dot B (NP.T Ua)) Ua))
-      let Btilde0 := (NP.T (lib.qrQ (NP.T PB0)))
-      let Sa0 := (NP.diag sa0)
-      let R0 := (NP.hstack (NP.vstack (f * Sa0) (NP.dot B (NP.T Ua))) (NP.vstack (NP.zeros (NP.shape0 Sa0) (NP.shape0 Btilde0)) (NP.dot PB0 (NP.T Btilde0))))
-      let p1 := (lib.svd R0)
-      let Utilde0 := p1.1
-      let stilde0 := p1.2.1
-      let Vttilde0 := p1.2.2
-      let l0 := ((NP.sq stilde0) / (n0 - (1)))
-      let l1 := (NP.filterGt l0 (max eps (((NP.maxShape R0) * precision0) * (NP.vmax l0))))
-      let U0 := (NP.sl (NP.dot Vttilde0 (NP.vstack Ua Btilde0)) 0 (NP.len l1) 0 (NP.shape1 (NP.dot Vttilde0 (NP.vstack Ua Btilde0))))
-      (U0, l1, m0)
+      ((NP.the ma), m0, B))
+  let ma0 := p2.1
+  let m0 := p2.2.1
+  let B0 := p2.2.2
+  let PB0 := (B0 - (NP.dot (NP.dot B0 (NP.T Ua)) Ua))
+  let Btilde0 := (NP.T (lib.qrQ (NP.T PB0)))
+  let Sa0 := (NP.diag sa0)
+  let R0 := (NP.hstack (NP.vstack (f * Sa0) (NP.dot B0 (NP.T Ua))) (NP.vstack (NP.zeros (NP.shape0 Sa0) (NP.shape0 Btilde0)) (NP.dot PB0 (NP.T Btilde0))))
+  let p3 := (lib.svd R0)
+  let Utilde0 := p3.1
+  let stilde0 := p3.2.1
+  let Vttilde0 := p3.2.2
+  let l0 := ((NP.sq stilde0) / (n0 - (1)))
+  let l1 := (NP.filterGt l0 (max eps (((NP.maxShape R0) * precision0) * (NP.vmax l0))))
+  let U0 := (NP.sl (NP.dot Vttilde0 (NP.vstack Ua Btilde0)) 0 (NP.len l1) 0 (NP.shape1 (NP.dot Vttilde0 (NP.vstack Ua Btilde0))))
+  (U0, l1, m0)
 
 def genPcaDataToMatrix (data : NP.Samples) (nsamples : Option Nat) : NP.Samples × Nat :=
-  if (nsamples).isNone then
-    let nsamples0 := (NP.len data)
-    if (!(NP.isArray data)) then
+  let p0 := (if (nsamples).isNone then
+      let nsamples0 := (NP.len data)
+      nsamples0
+    else
+      (NP.the nsamples))
+  let nsamples0 := p0
+  let p1 := (if (!(NP.isArray data)) then
       let data0 := (NP.Samples.arr (NP.sl (NP.arrayOf data) 0 nsamples0 0 (NP.shape1 (NP.arrayOf data))))
-      (data0, nsamples0)
+      data0
     else
-      (data, nsamples0)
-  else
-    if (!(NP.isArray data)) then
-      let data0 := (NP.Samples.arr (NP.sl (NP.arrayOf data) 0 (NP.the nsamples) 0 (NP.shape1 (NP.arrayOf data))))
-      (data0, (NP.the nsamples))
-    else
-      (data, (NP.the nsamples))
+      data)
+  let data0 := p1
+  (data0, nsamples0)
 
 def genPcaIncrement (lib : NP.Lib) (st : NP.PcaState) (data : NP.Samples) (nsamples : Option Nat) (ff : Rat) : NP.PcaState :=
   let p0 := (genPcaDataToMatrix data nsamples)
@@ -579,13 +439,14 @@ def genAsMatrix (vectorizables : List NP.Sample) (length : Option Nat) : Option 
           let i0 := p1.1
           let sample0 := p1.2
           let vector0 := (NP.Sample.asVector sample0)
-          if (!(NP.canCastSameKind (NP.dtypeOf vector0) (NP.dtypeOf data0))) then
-            let data1 := (NP.TM.astype data0 (NP.promote (NP.dtypeOf data0) (NP.dtypeOf vector0)))
-            let data0 := (NP.TM.setRow data1 i0 vector0)
-            (i0, data0)
-          else
-            let data1 := (NP.TM.setRow data0 i0 vector0)
-            (i0, data1))
+          let p2 := (if (!(NP.canCastSameKind (NP.dtypeOf vector0) (NP.dtypeOf data0))) then
+              let data1 := (NP.TM.astype data0 (NP.promote (NP.dtypeOf data0) (NP.dtypeOf vector0)))
+              data1
+            else
+              data0)
+          let data1 := p2
+          let data0 := (NP.TM.setRow data1 i0 vector0)
+          (i0, data0))
       let i1 := r0.1
       let data0 := r0.2
       if ((i1 != (length0 - (1)))) then
@@ -612,13 +473,14 @@ def genAsMatrix (vectorizables : List NP.Sample) (length : Option Nat) : Option 
           let i0 := p1.1
           let sample0 := p1.2
           let vector0 := (NP.Sample.asVector sample0)
-          if (!(NP.canCastSameKind (NP.dtypeOf vector0) (NP.dtypeOf data0))) then
-            let data1 := (NP.TM.astype data0 (NP.promote (NP.dtypeOf data0) (NP.dtypeOf vector0)))
-            let data0 := (NP.TM.setRow data1 i0 vector0)
-            (i0, data0)
-          else
-            let data1 := (NP.TM.setRow data0 i0 vector0)
-            (i0, data1))
+          let p2 := (if (!(NP.canCastSameKind (NP.dtypeOf vector0) (NP.dtypeOf data0))) then
+              let data1 := (NP.TM.astype data0 (NP.promote (NP.dtypeOf data0) (NP.dtypeOf vector0)))
+              data1
+            else
+              data0)
+          let data1 := p2
+          let data0 := (NP.TM.setRow data1 i0 vector0)
+          (i0, data0))
       let i1 := r0.1
       let data0 := r0.2
       if ((i1 != ((NP.the length) - (1)))) then
